@@ -3,7 +3,7 @@ from . import world2
 
 CLASSES = {"C15": ("emg", "fpcal", "fpdata"), "C16": ("data3d", "ft", "emg"),
            "C20": world2.ALL}
-BAD_KINDS = ["len+1", "len-1", "len+2", "len+7", "kind:str", "kind:none", "kind:int", "kind:array",
+BAD_KINDS = ["len+1", "len-1", "len+2", "len+7", "len-99", "kind:str", "kind:none", "kind:int", "kind:array",
              "kind:other_item"]
 
 
